@@ -133,6 +133,8 @@ deriving Repr
 inductive MErr where
   | notSquare          -- MatrixError('constrained matrix is not square')
   | rhsShape           -- MatrixError('right-hand size shape does not match matrix shape')
+  | rhsNonFinite       -- MatrixError('right-hand side is not finite')
+  | resNonFinite       -- MatrixError('residual is not finite')
   | solverMatrixError  -- MatrixError raised by the solver, re-raised
   | solverFailed       -- any other exception of the solver, wrapped in MatrixError
   | nonFinite          -- MatrixError('solver returned non-finite left hand side')
@@ -152,7 +154,27 @@ def solverM (nrm : Vec → F) (A : Mat) (ncols : Nat) (b : Vec) (atol rtol : F) 
   else if b.length ≠ A.length then .error .rhsShape
   else
     let tol := effTol atol rtol (nrm b)
-    if le (nrm b) tol then .ok (b.map fun _ => 0)          -- zero-rhs / within-tolerance shortcut
+    if !(nrm b).isFinite then .error .rhsNonFinite
+    else if le (nrm b) tol then .ok (b.map fun _ => 0)     -- zero-rhs / within-tolerance shortcut
+    else match sol with
+      | .matrixError => .error .solverMatrixError
+      | .otherError => .error .solverFailed
+      | .vec xs =>
+        match toRat? xs with
+        | none => .error .nonFinite
+        | some x =>
+          if x.length ≠ ncols then .error .matmulShape
+          else if !(nrm (vsub b (matVec A x))).isFinite then .error .resNonFinite
+          else if gt (nrm (vsub b (matVec A x))) tol && gt tol zero then .error (.tolNotReached x)
+          else .ok x
+
+/-- `_solver` before the repair: no finiteness checks on the two norms -/
+def solverOld (nrm : Vec → F) (A : Mat) (ncols : Nat) (b : Vec) (atol rtol : F) (sol : SolverRet) : Except MErr Vec :=
+  if A.length ≠ ncols then .error .notSquare
+  else if b.length ≠ A.length then .error .rhsShape
+  else
+    let tol := effTol atol rtol (nrm b)
+    if le (nrm b) tol then .ok (b.map fun _ => 0)
     else match sol with
       | .matrixError => .error .solverMatrixError
       | .otherError => .error .solverFailed
@@ -317,17 +339,23 @@ def solveSysOld (tol : F) (miniter : Int) (maxiter : Option Int) : MethodRet →
       | .raise t :: _ => .raised 0 t
       | .yield r :: rest => loopOld tol miniter maxiter 0 r rest
 
-/-- `_with_solve.solve_withinfo` (legacy): `while info.resnorm > tol or iiter < miniter` with float maxiter
-(`maxiter = none` is `inf`).  Mirrors the code as it is: no NaN check. -/
-def legacyLoop (tol : F) (miniter : Int) (maxiter : Option Int) : Nat → F → List Ev → SOut
-  | iiter, r, rest =>
-    if gt r tol || decide ((iiter : Int) < miniter) then
-      if hitMax maxiter iiter then .solverError iiter .maxiter
-      else match rest with
-        | [] => .stopIteration iiter
-        | .raise t :: _ => .raised iiter t
-        | .yield r' :: rest' => legacyLoop tol miniter maxiter (iiter + 1) r' rest'
-    else .returned iiter r
+/-- `_with_solve.solve_withinfo` (legacy wrappers `newton(...).solve(tol, maxiter, miniter)` etc.):
+`if miniter > maxiter: ValueError`, then the same loop as `System.solve` (`maxiter = none` is `inf`);
+there is no `tol <= 0` check. -/
+def legacySolve (tol : F) (miniter : Int) (maxiter : Option Int) (evs : List Ev) : SOut :=
+  if (match maxiter with | some M => decide (M < miniter) | none => false) then .valueError
+  else match evs with
+    | [] => .stopIteration 0
+    | .raise t :: _ => .raised 0 t
+    | .yield r :: rest => loop tol miniter maxiter 0 r rest
+
+/-- the legacy loop before the repair: `while info.resnorm > tol or iiter < miniter` -/
+def legacySolveOld (tol : F) (miniter : Int) (maxiter : Option Int) (evs : List Ev) : SOut :=
+  if (match maxiter with | some M => decide (M < miniter) | none => false) then .valueError
+  else match evs with
+    | [] => .stopIteration 0
+    | .raise t :: _ => .raised 0 t
+    | .yield r :: rest => loopOld tol miniter maxiter 0 r rest
 
 /-! ## `System.step` -/
 
@@ -418,11 +446,9 @@ def construct : List (Option Rat) → Vec → Vec
 
 /-- what the round trip must give: constraint value where given, else initial guess, else zero -/
 def expected (n : Nat) (a : Option Vec) (c : Option Cons) : Vec :=
-  (List.range n).map fun j =>
-    let a0 := (a.getD (zeros n)).getD j 0
-    match c with
-    | some (.vals v) => (v.getD j none).getD a0
-    | _ => a0
+  match c with
+  | some (.vals v) => List.zipWith (fun c x => c.getD x) v (a.getD (zeros n))
+  | _ => a.getD (zeros n)
 
 /-! ## `LinesearchNewton`: relaxation bookkeeping with a scripted strategy -/
 
